@@ -78,8 +78,20 @@ def answerCore (fs : List (String × String)) : E String := do
     else throw s!"unknown op {op}"
   else throw "N=0"
 
+/-- `op=hlleidx d=…` : the written product columns and the index verdict of the generated recurrence -/
+def answerIdx (fs : List (String × String)) : String :=
+  match (field? fs "d") >>= String.toNat? with
+  | none => "res=BADCASE:d"
+  | some d =>
+    let cols := String.intercalate "," ((hlleWrittenCols d).map toString)
+    let err := match hlleIndexErr d with
+      | none => "none"
+      | some e => reprStr e
+    s!"res=ok cols={cols} err={err}"
+
 def answer (line : String) : String :=
   let fs := fields line
+  if field? fs "op" == some "hlleidx" then answerIdx fs else
   match answerCore fs with
   | .ok s => s
   | .error e =>
